@@ -151,6 +151,81 @@ func c33BlockRequestDump(m *messages.BlockRequestMessage) string {
 	return fmt.Sprintf("(%d,%s,%d,%s)", m.RequestedData, from, byte(m.Direction), max)
 }
 
+// c33RawBytes draws a byte string of an odd length for protobuf bytes fields.
+func c33RawBytes(r *vhRng, typical int) []byte {
+	switch r.Intn(5) {
+	case 0:
+		return []byte{}
+	case 1:
+		return r.Bytes(typical)
+	case 2:
+		return r.Bytes(typical + 1 + r.Intn(3))
+	case 3:
+		if typical > 0 {
+			return r.Bytes(r.Intn(typical))
+		}
+		return r.Bytes(1)
+	default:
+		return r.Bytes(r.Intn(2*typical + 2))
+	}
+}
+
+// c33RawBlockRequest marshals a protobuf BlockRequest the Go encoder would never write: number and
+// hash of any length, any direction, fields above one byte.
+func c33RawBlockRequest(r *vhRng) []byte {
+	m := &pb.BlockRequest{Fields: uint32(r.U64()) >> uint(r.Pick(0, 8, 24)), Direction: pb.Direction(r.Pick(0, 1, 2, 255, 256, -1)),
+		MaxBlocks: uint32(r.Pick(0, 0, 1, 128, 1<<32-1))}
+	switch r.Intn(5) {
+	case 0:
+	case 1, 2:
+		m.FromBlock = &pb.BlockRequest_Number{Number: c33RawBytes(r, 4)}
+	default:
+		m.FromBlock = &pb.BlockRequest_Hash{Hash: c33RawBytes(r, 32)}
+	}
+	return c33Must(proto.Marshal(m))
+}
+
+// c33RawBlockResponse marshals protobuf block data with every combination of present, empty and
+// malformed parts (the flag with a present justification, empty body entries, junk headers).
+func c33RawBlockResponse(r *vhRng) []byte {
+	m := &pb.BlockResponse{}
+	for i, n := 0, r.Intn(3); i < n; i++ {
+		bd := &pb.BlockData{Hash: c33RawBytes(r, 32)}
+		switch r.Intn(4) {
+		case 0:
+		case 1:
+			bd.Header = c33SmallBytes(r, r.Intn(120))
+		default:
+			bd.Header = c33Must(scale.Marshal(*c33Header(r)))
+			if r.Chance(1, 4) {
+				bd.Header = append(bd.Header, c33SmallBytes(r, 1+r.Intn(3))...)
+			}
+		}
+		for j, k := 0, r.Intn(4); j < k; j++ {
+			switch r.Intn(4) {
+			case 0:
+				bd.Body = append(bd.Body, []byte{})
+			case 1:
+				bd.Body = append(bd.Body, c33SmallBytes(r, 1+r.Intn(5)))
+			default:
+				bd.Body = append(bd.Body, c33Must(scale.Marshal(c33Data(r))))
+			}
+		}
+		if r.Bool() {
+			bd.Receipt = c33RawBytes(r, 3)
+		}
+		if r.Bool() {
+			bd.MessageQueue = c33RawBytes(r, 3)
+		}
+		if r.Bool() {
+			bd.Justification = c33RawBytes(r, 3)
+		}
+		bd.IsEmptyJustification = r.Bool()
+		m.Blocks = append(m.Blocks, bd)
+	}
+	return c33Must(proto.Marshal(m))
+}
+
 func c33ScanType(t reflect.Type) func([]byte) uint64 {
 	return func(in []byte) uint64 {
 		var s uint64
@@ -326,6 +401,9 @@ var c33Kinds = []*c33Kind{
 			return c33BlockRequestDump(bm), bm.Encode, nil
 		},
 		valid: func(r *vhRng) []byte {
+			if r.Bool() {
+				return c33RawBlockRequest(r)
+			}
 			var from *messages.FromBlock
 			if r.Bool() {
 				from = messages.NewFromBlock(c33Hash(r))
@@ -349,6 +427,9 @@ var c33Kinds = []*c33Kind{
 			return c33Dump(reflect.ValueOf(m.BlockData)), m.Encode, nil
 		},
 		valid: func(r *vhRng) []byte {
+			if r.Bool() {
+				return c33RawBlockResponse(r)
+			}
 			m := &messages.BlockResponseMessage{}
 			for i, n := 0, r.Intn(3); i < n; i++ {
 				bd := &types.BlockData{Hash: c33Hash(r)}
